@@ -3,12 +3,12 @@ EXTENDS AnchorPolicy, Json
 VARIABLE c
 (* the well-formed environments: a product of the independent parts, flattened, then the two remaining cross-part conditions filtered *)
 (* (filtering the full product of the flat record type -- 3 million records -- is what would take TLC's time)                         *)
-Shapes == {[cal |-> FALSE, rec |-> "none"]} \cup {[cal |-> TRUE, rec |-> r] : r \in Recs}
+Shapes == {[cal |-> FALSE, sigAlg |-> "current", rec |-> "none"]} \cup {[cal |-> TRUE, sigAlg |-> a, rec |-> r] : a \in {"current", "deprecated"}, r \in Recs}
 UserPubs == {[up |-> "none", upTime |-> "later", upHash |-> "true"]} \cup {[up |-> "given", upTime |-> t, upHash |-> h] : t \in UpTimes, h \in {"true", "other"}}
 Pfs == {[pf |-> "none", pfsrc |-> "user", pfc |-> [atSig |-> "absent", later |-> "none"]]}
        \cup {[pf |-> "given", pfsrc |-> src, pfc |-> pc] : src \in {"user", "downloadTrusted", "downloadUntrusted"}, pc \in PfStates}
 Parts == [internal : {"ok", "broken"}, sh : Shapes, u : UserPubs, f : Pfs, extAllowed : BOOLEAN, ext : ExtBehaviours, cert : CertStates]
-Flat(t) == [internal |-> t.internal, cal |-> t.sh.cal, rec |-> t.sh.rec, up |-> t.u.up, upTime |-> t.u.upTime, upHash |-> t.u.upHash,
+Flat(t) == [internal |-> t.internal, cal |-> t.sh.cal, sigAlg |-> t.sh.sigAlg, rec |-> t.sh.rec, up |-> t.u.up, upTime |-> t.u.upTime, upHash |-> t.u.upHash,
             pf |-> t.f.pf, pfsrc |-> t.f.pfsrc, pfc |-> t.f.pfc, extAllowed |-> t.extAllowed, ext |-> t.ext, cert |-> t.cert]
 WellFormedEnvs == {Flat(t) : t \in {x \in Parts : (x.sh.rec # "auth" => x.cert = "valid") /\ (~x.sh.cal => x.u.upTime # "between")}}
 (* TLC evaluates initial states in one thread; successors are spread over the workers.  So the initial states fix only (policy, internal, *)
@@ -26,7 +26,8 @@ P2 == Full => FailOnlyOnContradiction(c.p, c.e)
 P3 == Full => BrokenNeverOk(c.p, c.e)
 P4 == Full => NoAnchorIsNA(c.p, c.e)
 (* completeness in the other direction for the single-anchor policies: a bound, internally consistent signature is OK unless a configured anchor contradicts it *)
-P5 == Full => ((c.e.internal = "ok" /\ Bound(c.p, c.e) /\ ~Contradiction(c.p, c.e)) => Verdict(c.p, c.e).res = "OK")
+P5 == Full => ((c.e.internal = "ok" /\ Bound(c.p, c.e) /\ ~Contradiction(c.p, c.e) /\ (AlgsCurrent(c.e) \/ c.p = "CAL")) => Verdict(c.p, c.e).res = "OK")
+P7 == Full => DeprecatedNeverOk(c.p, c.e)
 P6 == Full => FailCodeAdmitted(c.p, c.e)
 Emit == Full => PrintT("CASE " \o ToJson([p |-> c.p, e |-> c.e, v |-> Verdict(c.p, c.e), codes |-> AdmittedFailCodes(c.p, c.e)]))
 =============================================================================
